@@ -70,3 +70,21 @@ Theorem C07_multikey : forall (A : Type) (le1 le2 : A -> A -> bool) l,
   isort le1 (isort le2 l) = isort (fun a b => le1 a b && (negb (le1 b a) || le2 a b)) l.
 Proof. intros A le1 le2 l. exact (isort_lex le1 le2 l). Qed.
 Print Assumptions C07_multikey.
+
+(* strings: comparing the UTF-8 bytes (what the executable does) is comparing the code points *)
+From Jawk Require Import Base MiscProofs.
+
+(* for all strings of Unicode scalar values, byte order of the encodings equals code point order *)
+Theorem C07_utf8_order :
+  forall s t : list N,
+    Forall Utf8Order.scalar s ->
+    Forall Utf8Order.scalar t -> list_cmp N.compare (utf8_encode s) (utf8_encode t) = str_cmp s t.
+Proof. exact Utf8Order.utf8_order_str_cmp. Qed.
+Print Assumptions C07_utf8_order.
+
+Theorem C07_utf8_prefix_free :
+  forall (a b : N) (l l' : list byte),
+    Utf8Order.scalar a ->
+    Utf8Order.scalar b -> utf8_encode_char a ++ l = utf8_encode_char b ++ l' -> a = b.
+Proof. exact Utf8Order.utf8_prefix_free. Qed.
+Print Assumptions C07_utf8_prefix_free.
